@@ -171,3 +171,12 @@ Proof.
   split; [exact (U fmt D) | split; [exact R | exact U]].
 Qed.
 Print Assumptions C06_format_unchanged.
+
+(* ---- the writer introduces no carriage return: the output holds one only if the library or the format does.  (Together with
+   the text layer of Model/TextIO.v this is why a library without carriage returns goes through a file unchanged:
+   C20_text_written_library_survives_the_file.) *)
+From BP Require Import Proofs.WriterNoCR.
+Theorem C06_write_no_cr : forall f bs s,
+  fmt_ok f = true -> forallb block_ok bs = true -> write f bs = Val s -> ok s = true.
+Proof. exact write_no_cr. Qed.
+Print Assumptions C06_write_no_cr.
